@@ -309,6 +309,13 @@ class SnmpSession(object):
         ):
             return
 
+        try:
+            self._refresh()
+        except BlockingIOError as e:
+            raise TimeoutError from e
+
+    def _refresh(self: "SnmpSession") -> None:
+        """Refresh implementation, may raise BlockingIOError on timeout."""
         if self._deferred_user:
             # First check runs engine id discovery
             self._sock.refresh()
